@@ -59,6 +59,12 @@ type ShipConnection struct {
 
 	shutdownOnce sync.Once
 
+	// closing the data connection and reporting it has to happen exactly once
+	closeReportOnce sync.Once
+
+	// the connection is shutting down or closed, no further handshake processing is allowed
+	isShutdown bool
+
 	// buffer for SPINE messages that came in before the handshake was completed
 	spineBuffer [][]byte
 
@@ -116,7 +122,7 @@ func (c *ShipConnection) ShipHandshakeState() (model.ShipMessageExchangeState, e
 // invoked when pairing for a pending request is approved
 func (c *ShipConnection) ApprovePendingHandshake() {
 	state := c.getState()
-	if state != model.SmeHelloStatePendingListen {
+	if state != model.SmeHelloStatePendingListen || c.getShutdown() {
 		// TODO: what to do if the state is different?
 
 		return
@@ -140,7 +146,7 @@ func (c *ShipConnection) ApprovePendingHandshake() {
 // invoked when pairing for a pending request is denied
 func (c *ShipConnection) AbortPendingHandshake() {
 	state := c.getState()
-	if state != model.SmeHelloStatePendingListen && state != model.SmeHelloStateReadyListen {
+	if (state != model.SmeHelloStatePendingListen && state != model.SmeHelloStateReadyListen) || c.getShutdown() {
 		// TODO: what to do if the state is differnet?
 
 		return
@@ -155,6 +161,7 @@ func (c *ShipConnection) AbortPendingHandshake() {
 // close this ship connection
 func (c *ShipConnection) CloseConnection(safe bool, code int, reason string) {
 	c.shutdownOnce.Do(func() {
+		c.setShutdown()
 		c.stopHandshakeTimer()
 
 		// handshake is completed if approved or aborted
@@ -182,8 +189,7 @@ func (c *ShipConnection) CloseConnection(safe bool, code int, reason string) {
 				<-time.After(500 * time.Millisecond)
 
 				//
-				c.dataWriter.CloseDataConnection(4001, "close")
-				c.infoProvider.HandleConnectionClosed(c, handshakeEnd)
+				c.closeDataConnectionAndReport(4001, "close", handshakeEnd)
 			}()
 			return
 		}
@@ -192,10 +198,35 @@ func (c *ShipConnection) CloseConnection(safe bool, code int, reason string) {
 		if code != 0 {
 			closeCode = code
 		}
-		c.dataWriter.CloseDataConnection(closeCode, reason)
 
+		c.closeDataConnectionAndReport(closeCode, reason, handshakeEnd)
+	})
+}
+
+// close the data connection and report the connection being closed, both exactly once
+// no matter how many reasons for closing the connection come together
+func (c *ShipConnection) closeDataConnectionAndReport(code int, reason string, handshakeEnd bool) {
+	c.closeReportOnce.Do(func() {
+		c.setShutdown()
+		c.stopHandshakeTimer()
+
+		c.dataWriter.CloseDataConnection(code, reason)
 		c.infoProvider.HandleConnectionClosed(c, handshakeEnd)
 	})
+}
+
+func (c *ShipConnection) setShutdown() {
+	c.mux.Lock()
+	defer c.mux.Unlock()
+
+	c.isShutdown = true
+}
+
+func (c *ShipConnection) getShutdown() bool {
+	c.mux.Lock()
+	defer c.mux.Unlock()
+
+	return c.isShutdown
 }
 
 var _ api.ShipConnectionDataWriterInterface = (*ShipConnection)(nil)
@@ -358,7 +389,9 @@ func (c *ShipConnection) sendSpineData(data []byte) error {
 	}
 
 	if isClosed, err := c.dataWriter.IsDataConnectionClosed(); isClosed {
-		c.CloseConnection(false, 0, "")
+		if !c.getShutdown() {
+			c.CloseConnection(false, 0, "")
+		}
 		return err
 	}
 
@@ -400,7 +433,9 @@ func (c *ShipConnection) processShipJsonMessage(message []byte, target any) erro
 // transform a SHIP model into EEBUS specific JSON
 func (c *ShipConnection) shipMessage(typ byte, model interface{}) ([]byte, error) {
 	if isClosed, err := c.dataWriter.IsDataConnectionClosed(); isClosed {
-		c.CloseConnection(false, 0, "")
+		if !c.getShutdown() {
+			c.CloseConnection(false, 0, "")
+		}
 		return nil, err
 	}
 
